@@ -442,13 +442,18 @@ fn multi_state(shape: u8) -> StateRegistry<'static> {
     reg.insert(T6(8));
     reg.insert(T7(9));
     reg.insert(T8(10));
-    if shape == 1 {
+    if shape >= 1 {
         reg = reg.into_child();
         reg.insert(A(21));
         reg.insert(T1(23));
         reg.insert(T3(25));
         reg.insert(T5(27));
         reg.insert(T7(29));
+    }
+    if shape == 2 {
+        // a third scope on top that only holds T1 again: every other type is one or two scopes below
+        reg = reg.into_child();
+        reg.insert(T1(43));
     }
     reg
 }
@@ -511,8 +516,14 @@ pub fn probe_tuple<Tup: TupleProbe>(shape: u8) -> TupleOutcome {
         Err(p) => TupleOutcome { tags, distinct_reported: false, result: Err(R::Panic), after_inner: vec![], after_outer: vec![], panicked: Some(p) },
         Ok((d, result)) => {
             let after_inner = Tup::read(&reg);
+            // the bottom scope
             let after_outer = match reg.parent() {
-                Some(p) => Tup::read(p),
+                Some(mut p) => {
+                    while let Some(q) = p.parent() {
+                        p = q;
+                    }
+                    Tup::read(p)
+                }
                 None => vec![],
             };
             TupleOutcome { tags, distinct_reported: d, result, after_inner, after_outer, panicked: None }
@@ -527,8 +538,10 @@ fn initial_value(tag: u8, shape: u8, outer: bool) -> Option<u8> {
         11..=18 => tag - 8,
         _ => return None,
     };
-    let shadowed = shape == 1 && (tag == 0 || (tag >= 11 && tag % 2 == 1));
-    if shadowed && !outer {
+    let shadowed = shape >= 1 && (tag == 0 || (tag >= 11 && tag % 2 == 1));
+    if shape == 2 && tag == 11 && !outer {
+        Some(43)
+    } else if shadowed && !outer {
         Some(base + 20)
     } else {
         Some(base)
@@ -559,9 +572,9 @@ fn check_tuple(name: &str, shape: u8, o: &TupleOutcome) -> Option<(String, Strin
                 if o.after_inner[i] != Some(100 + i as u8) {
                     return Some((format!("C02 multi {} not-innermost", class), ctx(format!("value written through reference {} is not what the innermost-scope lookup reads back: {:?}", i, o.after_inner))));
                 }
-                if shape == 1 {
-                    let shadowed = initial_value(o.tags[i], 1, false) != initial_value(o.tags[i], 1, true);
-                    if shadowed && o.after_outer[i] != initial_value(o.tags[i], 1, true) {
+                if shape >= 1 {
+                    let shadowed = initial_value(o.tags[i], shape, false) != initial_value(o.tags[i], shape, true);
+                    if shadowed && o.after_outer[i] != initial_value(o.tags[i], shape, true) {
                         return Some((format!("C02 multi {} wrote-shadowed", class), ctx(format!("the shadowed outer object of position {} changed: {:?}", i, o.after_outer))));
                     }
                 }
@@ -608,6 +621,14 @@ fn hold_state(shape: u8) -> St {
         reg.insert(A(21));
         if shape == 2 {
             reg.insert(B(22));
+        }
+        // three scopes: an empty scope (3) or one shadowing only B (4) on top of the A-shadowed pair
+        if shape == 3 {
+            reg = reg.into_child();
+        }
+        if shape == 4 {
+            reg = reg.into_child();
+            reg.insert(B(42));
         }
     }
     State::from(reg)
@@ -665,7 +686,9 @@ fn hold_model(shape: u8, levels: &[Level]) -> (Vec<[Option<u8>; 2]>, Option<Stri
     let mut scopes: Vec<[Option<u8>; 2]> = match shape {
         0 => vec![[Some(1), Some(2)]],
         1 => vec![[Some(21), None], [Some(1), Some(2)]],
-        _ => vec![[Some(21), Some(22)], [Some(1), Some(2)]],
+        2 => vec![[Some(21), Some(22)], [Some(1), Some(2)]],
+        3 => vec![[None, None], [Some(21), None], [Some(1), Some(2)]],
+        _ => vec![[None, Some(42)], [Some(21), None], [Some(1), Some(2)]],
     };
     fn rec(scopes: &mut Vec<[Option<u8>; 2]>, levels: &[Level], depth: usize) -> Option<String> {
         if levels.is_empty() {
@@ -712,7 +735,7 @@ fn check_holding(shape: u8, levels: &[Level]) -> Option<(String, String)> {
     let class = format!(
         "nest={} shape={} {}",
         tys,
-        ["flat", "A-shadowed", "A+B-shadowed"][shape as usize],
+        ["flat", "A-shadowed", "A+B-shadowed", "A-shadowed-below-empty-scope", "A-shadowed-below-B-scope"][shape as usize],
         match (&exp_err, fail) {
             (None, _) => "all-ok".to_string(),
             (Some(e), _) if e.starts_with("does not") => "inner-type-missing".to_string(),
@@ -779,7 +802,7 @@ fn all_nestings(max_depth: usize) -> Vec<Vec<Level>> {
 
 pub fn run(rep: &mut Report) {
     rep.alpha("borrow machine: try_borrow / try_borrow_mut / try_borrow_value / try_borrow_value_mut / borrow / borrow_mut / borrow_value / borrow_value_mut on A@inner, A@outer (via parent()), B@outer (via top and via parent()), an absent type; try_get_value, get_value, set_value; release, read and write through live guards");
-    rep.alpha("multi-borrow: 730 type tuples (all of arity 2..8 over {A,B}; all of arity 2..4 over {A,B,absent} containing the absent type; per arity the all-distinct tuple over T1..T8, its reverse, every single duplicated pair, every single absent position) x 2 registry shapes");
+    rep.alpha("multi-borrow: 730 type tuples (all of arity 2..8 over {A,B}; all of arity 2..4 over {A,B,absent} containing the absent type; per arity the all-distinct tuple over T1..T8, its reverse, every single duplicated pair, every single absent position) x 3 registry shapes (one scope; two scopes with shadowing; three scopes with the types one and two scopes below the top)");
     rep.alpha("holding: all nestings of depth <= 3 over {A,B} x {flat, A shadowed, A and B shadowed} x write/no write per level x at most one failing closure (before or after the nested call)");
     rep.assume("guards are held in a harness-side Vec while further requests go through &State; &mut operations are only legal without live guards (compiler-enforced) and are covered by C01");
     rep.assume("an implementation grant that the oracle refuses is reported without dereferencing the aliased guards");
@@ -796,7 +819,7 @@ pub fn run(rep: &mut Report) {
 
     // 2. multi-borrow
     let mut p = Part::new("multi-borrow.tuples");
-    for shape in 0..2u8 {
+    for shape in 0..3u8 {
         super::c02_tuples::all_tuples(shape, &mut |name, o| {
             p.transitions += 1;
             p.traces += 1;
@@ -813,7 +836,7 @@ pub fn run(rep: &mut Report) {
         });
     }
     p.states = (super::c02_tuples::N_TUPLES * 2) as u64;
-    p.bound("tuples", super::c02_tuples::N_TUPLES as u64).bound("registry_shapes", 2);
+    p.bound("tuples", super::c02_tuples::N_TUPLES as u64).bound("registry_shapes", 3);
     p.require_outcomes(3);
     rep.push(p);
 
@@ -821,8 +844,8 @@ pub fn run(rep: &mut Report) {
     let mut p = Part::new("holding.nestings");
     let depth = 3;
     let nestings = all_nestings(depth);
-    p.bound("max_nesting_depth", depth as u64).bound("nestings", nestings.len() as u64).bound("shapes", 3);
-    for shape in 0..3u8 {
+    p.bound("max_nesting_depth", depth as u64).bound("nestings", nestings.len() as u64).bound("shapes", 5);
+    for shape in 0..5u8 {
         for n in &nestings {
             p.transitions += n.len() as u64;
             p.traces += 1;
